@@ -278,6 +278,12 @@ def decl_sources(style: str, u: str) -> dict[str, tuple[str, list[tuple[str, str
         + ([(t("K1p"), f"Ka{u}", "param", "p"), (t("K1ma"), f"ma{u}", "param", "a"), (t("K1mr"), f"ma{u}", "result", rname)] if structured else [(t("K1p"), f"Ka{u}", "description", None), (t("K1ma"), f"ma{u}", "description", None)])
         + ([(t("K1x"), "x", "description", None)] if style in ("NUMPYDOC", "GOOGLE") else []),
     )
+    out["K34"] = (
+        f"class Kc{u}:\n" + d(t("K3S") + ".", t("K3D"), 4, attrs=[("xs" + u, "int", t("K3x")), ("ys" + u, "str", t("K3y"))]) + f"\n    xs{u}: int = 1\n    ys{u}: str = 'a'\n\n\n"
+        f"class Kd{u}:\n    xs{u}: int = 2\n    ys{u}: str = 'b'\n",
+        [(t("K3S"), f"Kc{u}", "description", None), (t("K3D"), f"Kc{u}", "description", None)]
+        + ([(t("K3x"), "xs" + u, "description", None), (t("K3y"), "ys" + u, "description", None)] if style in ("NUMPYDOC", "GOOGLE") else []),
+    )
     out["K2"] = (
         f"class Kb{u}:\n" + d(t("K2S") + ".", t("K2D"), 4) + "\n"
         f"    def __init__(self, p: int) -> None:\n" + d(t("K2iS") + ".", t("K2iD"), 8, params=[("p", "int", t("K2p"))]) + "        self.q = p\n",
@@ -309,8 +315,8 @@ def part_b(rep: Report, tier: str) -> None:
     units = []  # (label, style, module name, source, expectations, module token)
     uid = itertools.count(1)
     for style in ["PLAINTEXT", *STRUCT]:
-        names = ["F1", "F2", "F3", "K1", "K2"]
-        perms = list(itertools.permutations(names)) if tier == "thorough" else [p for i, p in enumerate(itertools.permutations(names)) if i % 11 == 0] + [tuple(names)]
+        names = ["F1", "F2", "F3", "K1", "K2", "K34"]
+        perms = list(itertools.permutations(names)) if tier == "thorough" else [p for i, p in enumerate(itertools.permutations(names)) if i % 61 == 0] + [tuple(names)]
         for perm in perms:
             u = f"{next(uid):05d}"
             ds = decl_sources(style, u)
@@ -357,9 +363,10 @@ def part_b(rep: Report, tier: str) -> None:
             def viol(clause, feat, detail, label=label, mini=mini) -> None:
                 rep.violation(clause, f"{clause}:{feat}|{style}|{label.split(':')[0]}", {"style": style, "order": label, **detail}, files=mini, src_rel=PKG, opts=opts)
 
+            # keyed by the full chain: equally named members of different classes are different elements
             blocks: dict[str, object] = {}
             for chain, dcl in m.walk():
-                blocks[dcl.py_name] = parse_doc_comment(dcl.doc)
+                blocks["/".join((*chain, dcl.py_name))] = parse_doc_comment(dcl.doc)
             modblk = parse_doc_comment(m.doc)
             if modtok:
                 if sum(1 for ln in modblk.description if modtok in ln) != 2:
@@ -369,7 +376,8 @@ def part_b(rep: Report, tier: str) -> None:
             for tok, owner, block, key in exp:
                 # where does the token occur?
                 occ = []
-                for name, b in blocks.items():
+                for key_, b in blocks.items():
+                    name = key_.split("/")[-1]
                     if any(tok in ln for ln in b.description):
                         occ.append((name, "description", None))
                     for pn, lines in b.params.items():
@@ -402,7 +410,7 @@ def part_b(rep: Report, tier: str) -> None:
                     continue
                 rep.ok("token-attached")
                 # multi-line texts keep their line sequence
-                b = blocks[owner]
+                b = next(bb for kk, bb in blocks.items() if kk.split("/")[-1] == owner)
                 lines = b.description if block == "description" else (b.params.get(key, []) if block == "param" else (b.results.get(key, []) if block == "result" else [ln for ex in b.examples for ln in ex]))
                 got = [ln for ln in lines if tok in ln]
                 if len(got) == 2 and not (got[0].rstrip().endswith("line one") and got[1].rstrip().endswith("line two")):
